@@ -12,6 +12,7 @@ def run(rep: Report, repo: Repo, tier: str) -> None:
     fsrules.rule_write_census(rep, repo, "C13-R1")
     rep.floor("C13-R1", 10, "write-site obligations (guard + rooting)")
     pathterms.rule_page_path(rep, repo, "C13-R2")
+    fsrules.rule_stem_agreement(rep, repo, "C13-R2s")
     fsrules.rule_recursion_switch(rep, repo, "C13-R3")
     fsrules.rule_no_mutation_while_iterating(rep, repo, "C13-R4a")
     fsrules.rule_pruning_in_place(rep, repo, "C13-R4b")
